@@ -328,6 +328,44 @@ Lemma failing_setup_witness :
   rbegins (run_teardown_funcs (fun _ => IGlobal) None kept r_init) = [OFxTeardown 1].
 Proof. vm_compute; repeat split. Qed.
 
+(* ================================================================ a recorded failure is never forgotten *)
+Lemma failed_step_action : forall o env tp a x, sr_failed x = true -> sr_failed (step_action o env tp a x) = true.
+Proof.
+  intros o env tp a x F; destruct a as [lvl n|ok n|n|n|n|id|f|body| |k]; simpl; destruct (sr_raised x); try exact F; simpl;
+    try (rewrite F; reflexivity); try exact F.
+Qed.
+Lemma failed_fold_actions : forall o env tp sc x, sr_failed x = true ->
+  sr_failed (fold_left (fun y a => step_action o env tp a y) sc x) = true.
+Proof.
+  intros o env tp sc; induction sc as [|a sc IH]; intros x F; [exact F|].
+  simpl; apply IH; apply failed_step_action; exact F.
+Qed.
+Lemma failed_run_script : forall o env sc s children, sr_failed (run_script o env sc s true children) = true.
+Proof.
+  intros o env sc s children; unfold run_script.
+  assert (H : sr_failed (interp o [] env sc (mkSres (emit (AtBegin o) s) true children None [] 0)) = true).
+  { unfold interp, close_script; simpl; apply failed_fold_actions; reflexivity. }
+  destruct (sr_raised (interp o [] env sc (mkSres (emit (AtBegin o) s) true children None [] 0))); simpl; exact H.
+Qed.
+Lemma failed_call_tfun : forall env f r, rs_failed r = true -> rs_failed (fst (call_tfun env f r)) = true.
+Proof.
+  intros env f r F; destruct f as [fx|p sc|p sc]; simpl; rewrite ?F.
+  - destruct (fx_generator fx); simpl; [apply failed_run_script|exact F].
+  - apply failed_run_script.
+  - apply failed_run_script.
+Qed.
+Lemma failed_after_exception : forall k suite r, rs_failed r = true -> rs_failed (after_exception k suite r) = true.
+Proof. intros k suite r F; unfold after_exception; destruct (is_exception k); simpl; [reflexivity|exact F]. Qed.
+Lemma failed_teardown_list : forall env suite l r, rs_failed r = true -> rs_failed (run_teardown_list env suite l r) = true.
+Proof.
+  intros env suite l; induction l as [|f l IH]; intros r F; [exact F|].
+  destruct f as [f|]; simpl; [|apply IH; exact F].
+  destruct (rs_died r); [exact F|].
+  pose proof (failed_call_tfun env f r F) as Fc.
+  destruct (call_tfun env f r) as [r1 [k|]]; simpl in Fc; apply IH; [apply failed_after_exception|]; exact Fc.
+Qed.
+
+
 (* ================================================================ a whole test task *)
 (* TestTask.run: setup_test, then the test-scoped fixtures, then the body — only if every setup completed without a
    failure —, then the teardowns of what was set up, in reverse: the fixtures last set up first, teardown_test last. *)
@@ -354,7 +392,8 @@ Theorem test_run_user_code_order : forall env p suite t hk fxs,
   exists done rest, test_pairs p hk fxs = done ++ rest /\
     begins (to_main (test_run env p suite t hk fxs)) =
       setups_of done ++ (match rest with q :: _ => sf_owners (fst q) | [] => [OBody p] end) ++
-      rev (teardowns_of (map snd done)).
+      rev (teardowns_of (map snd done)) /\
+    (to_res (test_run env p suite t hk fxs) = TkSuccess -> rest = []).
 Proof.
   intros env p suite t hk fxs; unfold test_run; fold (test_pairs p hk fxs).
   set (pairs := test_pairs p hk fxs).
@@ -400,7 +439,9 @@ Proof.
       destruct (sr_raised x); [rewrite rbegins_after_exception|]; exact Bx.
     - destruct (A2 q rest' eq_refl) as [[F|F] Bg]; [|congruence].
       unfold r2; rewrite F; split; [exact Bg|right; reflexivity]. }
-  destruct B2 as [B2 _].
+  destruct B2 as [B2 FR].
+  assert (F2 : rest <> [] -> rs_failed r2 = true).
+  { intros Hr; destruct FR as [FR|FR]; [contradiction|]. unfold r2; rewrite FR; exact FR. }
   destruct (rs_died r2) eqn:D2; [intros H; apply finish_died in H; congruence|].
   (* the teardowns *)
   set (r3 := if any_teardown kept then _ else r2).
@@ -408,7 +449,11 @@ Proof.
   assert (D3 : rs_died r3 = false).
   { destruct (rs_died r3) eqn:D3; [apply finish_died in H; congruence|reflexivity]. }
   rewrite D3 in H |- *.
-  exists done, rest; split; [exact E|].
+  exists done, rest; split; [exact E|]. split; [|
+    intros R; destruct rest as [|q rest']; [reflexivity|exfalso];
+    assert (F3 : rs_failed r3 = true) by
+      (unfold r3; destruct (any_teardown kept); [apply failed_teardown_list; apply F2; discriminate|apply F2; discriminate]);
+    unfold finish in R; cbn [to_res rs_died rs_failed] in R; rewrite F3 in R; discriminate].
   transitivity (nb (fire (RTestEnd p) (end_step_if_any [] (rs_t r3)))); [reflexivity|].
   rewrite nb_fire, nb_end_step_if_any. change (nb (rs_t r3)) with (rbegins r3).
   assert (B3 : rbegins r3 = rbegins r2 ++ rev (teardowns_of kept)).
@@ -496,3 +541,4 @@ Proof.
   exists done, rest; split; [exact E|split; [exact B|split; [|exact R]]].
   rewrite (teardown_phase_order _ _ _ _ _ _ _ H2), K; reflexivity.
 Qed.
+
